@@ -3,6 +3,7 @@ package explore
 import (
 	"fmt"
 	"os"
+	"regexp"
 	"runtime"
 	"sort"
 	"strings"
@@ -201,4 +202,28 @@ func errStr(e error) string {
 		return ""
 	}
 	return e.Error()
+}
+
+var siteRe = regexp.MustCompile(`/(repo|advanced-statefulset)/((?:pkg|client)/[^\s:]+\.go):(\d+)`)
+
+// PanicSite returns the first frame of the stack that lies in the repository
+// (file:function granularity is enough to tell panic classes apart).
+func PanicSite(stack string) string {
+	lines := strings.Split(stack, "\n")
+	for i, l := range lines {
+		if m := siteRe.FindStringSubmatch(l); m != nil && !strings.Contains(l, "verif_hooks") {
+			fn := ""
+			if i > 0 {
+				fn = strings.TrimSpace(lines[i-1])
+				if j := strings.LastIndex(fn, "("); j > 0 {
+					fn = fn[:j]
+				}
+				if j := strings.LastIndex(fn, "/"); j >= 0 {
+					fn = fn[j+1:]
+				}
+			}
+			return m[2] + ":" + m[3] + ":" + fn
+		}
+	}
+	return "unknown"
 }
